@@ -185,6 +185,16 @@ impl Inp {
         Ok(result)
     }
 
+    fn matches_same_word_as(&self, other: &Inp) -> bool {
+        match (self, other) {
+            (
+                Self::Literal { literal: left, .. },
+                Self::Literal { literal: right, .. },
+            ) => left == right,
+            _ => self == other,
+        }
+    }
+
     pub fn is_star(&self) -> bool {
         match self {
             Self::Star => true,
@@ -327,16 +337,24 @@ fn dfa_from_regex(
         let state_transitions = transitions.entry(from_combined_state_id).or_default();
         for (inp_id, inp) in inputs.pairs() {
             let mut set_of_positions = RoaringBitmap::new();
+            let mut is_expected = false;
             for pos in &combined_state {
-                if let Some(input) = regex.input_from_position.get(*pos as usize)
-                    && Inp::from_input(input, subword_regexes, &mut subdfas, &mut subwords_cache)?
-                        == *inp
-                    && let Some(positions) = followpos.get(pos)
-                {
-                    set_of_positions |= positions;
+                if let Some(input) = regex.input_from_position.get(*pos as usize) {
+                    let pos_inp =
+                        Inp::from_input(input, subword_regexes, &mut subdfas, &mut subwords_cache)?;
+                    if pos_inp == *inp {
+                        is_expected = true;
+                    }
+                    // The same literal expected at several fallback levels is still matched by
+                    // one and the same shell word, so all of its continuations apply.
+                    if pos_inp.matches_same_word_as(inp)
+                        && let Some(positions) = followpos.get(pos)
+                    {
+                        set_of_positions |= positions;
+                    }
                 }
             }
-            if !set_of_positions.is_empty() {
+            if is_expected && !set_of_positions.is_empty() {
                 let set_of_positions = BTreeSet::from_iter(set_of_positions);
                 if !state_id_from_set_of_positions.contains_key(&set_of_positions) {
                     state_id_from_set_of_positions
